@@ -957,6 +957,8 @@ class SV:
         if s.is_int: return s
         c = ctx()
         st = z3.simplify(s.t)
+        if z3.is_rational_value(st) or z3.is_int_value(st):
+            return SV(z3.IntVal(math.floor(_fr(st))))
         key = ('floor', st.sexpr())
         if key not in c.opaque:
             n = c.fresh('floor', 'I')
@@ -1262,6 +1264,10 @@ class SA(_np.ndarray):
             lf = _el_logical(ufunc)
             if lf is not None and any(isinstance(i, _np.ndarray) and i.dtype == object for i in ins):
                 r = _np.frompyfunc(lf, len(ins), 1)(*ins)
+                if ufunc in (_np.invert, _np.logical_not) and getattr(ctx(), 'force_masks', False):
+                    # the mask is about to index a plain (non-symbolic) array: decide every element (forks)
+                    r = _np.frompyfunc(lambda v: bool(v), 1, 1)(r).astype(bool)
+                    return r
                 return _finish_bool(r)
             if ufunc in CMP:
                 kw['dtype'] = object
